@@ -263,13 +263,20 @@ pub fn render_interface_item(p: &Program, i: &Interface) -> String {
         let sg = sig(m, kind, &[], &assocs, sc, sq, e, true);
         // forwarded attributes are written above or below `sv::msg` (both are legal)
         let above = (m.name.len() % 2 == 0) ^ p.contract.flip_attr_order;
+        let gap = m.name.len() % 3 != 0 && !m.variant_attrs.is_empty();
         if !above {
             writeln!(s, "    {}", sg.attr).unwrap();
+            if gap {
+                writeln!(s, "    #[allow(clippy::needless_lifetimes)]").unwrap();
+            }
         }
         for l in variant_attrs(m).lines() {
             writeln!(s, "    {}", l.trim_start()).unwrap();
         }
         if above {
+            if gap {
+                writeln!(s, "    #[allow(clippy::needless_lifetimes)]").unwrap();
+            }
             writeln!(s, "    {}", sg.attr).unwrap();
         }
         // a third of the handlers are declared with a provided (default) body; the contract
@@ -339,6 +346,22 @@ pub fn contract_attr_lines(p: &Program) -> Vec<String> {
     for k in &p.contract.overrides {
         lines.push(format!("#[sv::override_entry_point({}=ovr::{}(OvrMsg))]", k.attr(), ovr_fn_name(p, *k)));
     }
+    // `sv::messages` attributes need not be adjacent: in the flipped rendering the last one is
+    // written after all other attributes (or, if there are none after it, the leading
+    // `sv::error` / `sv::custom` line is moved in between)
+    if p.contract.flip_attr_order && p.interfaces.len() >= 2 {
+        let is_m = |l: &String| l.starts_with("#[sv::messages(");
+        if let Some(last) = lines.iter().rposition(is_m) {
+            let l = lines.remove(last);
+            lines.push(l);
+            let n = lines.len();
+            if n >= 2 && is_m(&lines[n - 2]) && !is_m(&lines[0]) {
+                let first = lines.remove(0);
+                let n = lines.len();
+                lines.insert(n - 1, first);
+            }
+        }
+    }
     lines
 }
 
@@ -366,13 +389,22 @@ pub fn contract_method_texts(p: &Program) -> Vec<String> {
         let id = format!("ctr::{}::{}", kind.attr(), m.name);
         let resp_conc = if resp_twin(m) { format!("{}Twin", resp_rust(m.resp, &params)) } else { resp_rust(m.resp, &params) };
         let above = (m.name.len() % 2 == 0) ^ p.contract.flip_attr_order;
+        // the framework's attributes of one method need not be adjacent: two thirds of the
+        // methods with forwarded attributes carry a foreign attribute in between (both orders)
+        let gap = m.name.len() % 3 != 0 && !m.variant_attrs.is_empty();
         if !above {
             writeln!(s, "    {}", sg.attr).unwrap();
+            if gap {
+                writeln!(s, "    #[allow(clippy::needless_lifetimes)]").unwrap();
+            }
         }
         for l in variant_attrs(m).lines() {
             writeln!(s, "    {}", l.trim_start()).unwrap();
         }
         if above {
+            if gap {
+                writeln!(s, "    #[allow(clippy::needless_lifetimes)]").unwrap();
+            }
             writeln!(s, "    {}", sg.attr).unwrap();
         }
         writeln!(s, "    fn {}({}) -> {} {{", m.name, sg.params, sg.ret).unwrap();
